@@ -107,6 +107,70 @@ class ModuleInfo:
         return f'<Module {self.name}>'
 
 
+def _returns_not_none(node):
+    """every path through the function ends in `return <expression that cannot be None>` or raises (syntactic: numeric /
+    container / string expressions and conversions; a returned name or an arbitrary call is not accepted)"""
+    if not isinstance(node, ast.FunctionDef):
+        return False
+    if any(isinstance(n, (ast.Yield, ast.YieldFrom)) for n in ast.walk(node)):
+        return False
+
+    def value_ok(v):
+        if v is None:
+            return False
+        if isinstance(v, ast.Constant):
+            return v.value is not None
+        if isinstance(v, (ast.BinOp, ast.Tuple, ast.List, ast.Dict, ast.Set, ast.JoinedStr, ast.Compare, ast.ListComp,
+                          ast.DictComp, ast.SetComp)):
+            return True
+        if isinstance(v, ast.UnaryOp):
+            return True
+        if isinstance(v, ast.IfExp):
+            return value_ok(v.body) and value_ok(v.orelse)
+        if isinstance(v, ast.Call):
+            f = v.func
+            name = f.id if isinstance(f, ast.Name) else (f.attr if isinstance(f, ast.Attribute) else None)
+            if isinstance(f, ast.Name) and name in ('int', 'float', 'len', 'str', 'bool', 'abs', 'round', 'min', 'max', 'sum',
+                                                    'list', 'tuple', 'dict', 'set', 'sorted', 'bytes', 'bytearray'):
+                return True
+            if isinstance(f, ast.Attribute) and isinstance(f.value, ast.Name) and f.value.id in ('np', 'xp', 'numpy') and name in (
+                    'array', 'zeros', 'ones', 'full', 'empty', 'ceil', 'floor', 'sqrt', 'abs', 'mean', 'std', 'sum', 'round',
+                    'concatenate', 'linspace', 'arange', 'maximum', 'minimum', 'exp', 'log', 'cos', 'sin', 'real', 'imag'):
+                return True
+        return False
+    own = []        # return statements of this function (not of nested ones)
+
+    def collect(stmts):
+        for st in stmts:
+            if isinstance(st, (ast.FunctionDef, ast.ClassDef, ast.AsyncFunctionDef)):
+                continue
+            if isinstance(st, ast.Return):
+                own.append(st)
+            for fld in ('body', 'orelse', 'finalbody'):
+                sub = getattr(st, fld, None)
+                if isinstance(sub, list):
+                    collect(sub)
+            for h in getattr(st, 'handlers', []) or []:
+                collect(h.body)
+
+    def terminal(stmts):
+        if not stmts:
+            return False
+        last = stmts[-1]
+        if isinstance(last, (ast.Return, ast.Raise)):
+            return True
+        if isinstance(last, ast.If):
+            return terminal(last.body) and terminal(last.orelse)
+        if isinstance(last, ast.With):
+            return terminal(last.body)
+        if isinstance(last, ast.Try):
+            return (terminal(last.finalbody) if last.finalbody else False) or (
+                terminal(last.body + last.orelse) and all(terminal(h.body) for h in last.handlers))
+        return False
+    collect(node.body)
+    return bool(own) and terminal(node.body) and all(value_ok(r.value) for r in own)
+
+
 class Program:
     def __init__(self, repo=None):
         self.repo = repo or REPO
@@ -118,6 +182,44 @@ class Program:
         self._link()
         from . import terms as _T
         _T.PACKAGE_HEADS.update(fi.short for fi in self.functions.values())
+        self.attr_domains = self._attr_domains()
+        _T.NOTNONE_CALLS.clear()
+        _T.NOTNONE_CALLS.update(fi.short for fi in self.functions.values() if _returns_not_none(fi.node))
+
+    def _attr_domains(self):
+        """(class qual, attribute) -> sorted constants, for attributes with a constructor-checked finite domain:
+        `assert p in [c1, c2, ...]` at the top level of __init__ followed by the unconditional `self.a = p`, and no other
+        store of `.a` on `self` in the class."""
+        out = {}
+        for ci in self.classes.values():
+            init = ci.methods.get('__init__')
+            if init is None:
+                continue
+            doms = {}
+            for st in init.node.body:
+                if isinstance(st, ast.Assert) and isinstance(st.test, ast.Compare) and len(st.test.ops) == 1 and \
+                        isinstance(st.test.ops[0], ast.In) and isinstance(st.test.left, ast.Name) and \
+                        isinstance(st.test.comparators[0], (ast.List, ast.Tuple, ast.Set)) and all(
+                            isinstance(e, ast.Constant) and isinstance(e.value, int) and not isinstance(e.value, bool)
+                            for e in st.test.comparators[0].elts):
+                    doms[st.test.left.id] = sorted(e.value for e in st.test.comparators[0].elts)
+            if not doms:
+                continue
+            stores = {}
+            for m in ci.methods.values():
+                for n in ast.walk(m.node):
+                    if isinstance(n, ast.Attribute) and isinstance(n.ctx, (ast.Store, ast.Del)) and isinstance(n.value, ast.Name) \
+                            and n.value.id == 'self':
+                        stores.setdefault(n.attr, []).append(m)
+            rebound = {n.id for n in ast.walk(init.node) if isinstance(n, ast.Name) and isinstance(n.ctx, ast.Store)}
+            for st in init.node.body:
+                if isinstance(st, ast.Assign) and len(st.targets) == 1 and isinstance(st.targets[0], ast.Attribute) and \
+                        isinstance(st.targets[0].value, ast.Name) and st.targets[0].value.id == 'self' and \
+                        isinstance(st.value, ast.Name) and st.value.id in doms and st.value.id not in rebound:
+                    a = st.targets[0].attr
+                    if len(stores.get(a, [])) == 1:
+                        out[(ci.qual, a)] = doms[st.value.id]
+        return out
 
     # ---------------------------------------------------------------- loading
     def _load(self):
